@@ -45,6 +45,18 @@ TRANSPARENT = {
     "core::option::Option::<T>::ok_or": [0], "core::option::Option::<T>::unwrap": [0],
     "core::result::Result::<T, E>::and_then": [0], "core::result::Result::<T, E>::map_err": [0],
     "alloc::sync::Arc::<T>::new": [0],
+    "core::slice::<impl [T]>::iter": [0], "core::slice::<impl [T]>::iter_mut": [0], "core::slice::<impl [T]>::first": [0],
+    "core::slice::<impl [T]>::last": [0], "core::slice::<impl [T]>::get": [0], "core::ops::index::Index::index": [0],
+    "core::slice::<impl [T]>::to_vec": [0], "alloc::vec::Vec::<T, A>::as_slice": [0], "alloc::vec::Vec::<T, A>::drain": [0],
+    "core::iter::traits::iterator::Iterator::by_ref": [0], "core::iter::traits::iterator::Iterator::peekable": [0],
+    "core::iter::traits::iterator::Iterator::enumerate": [0], "core::iter::traits::iterator::Iterator::cloned": [0],
+    "core::iter::traits::iterator::Iterator::copied": [0], "core::iter::traits::iterator::Iterator::rev": [0],
+    "core::option::Option::<core::result::Result<T, E>>::transpose": [0], "core::result::Result::<core::option::Option<T>, E>::transpose": [0],
+    "core::option::Option::<T>::unwrap_or": [0, 1], "core::result::Result::<T, E>::unwrap_or": [0, 1],
+    "core::option::Option::<T>::unwrap_or_default": [0], "core::option::Option::<T>::as_ref": [0], "core::option::Option::<T>::as_deref": [0],
+    "core::option::Option::<T>::cloned": [0], "core::option::Option::<T>::copied": [0], "core::option::Option::<T>::take": [0],
+    "core::result::Result::<T, E>::ok": [0], "core::option::Option::<T>::ok_or": [0], "core::result::Result::<T, E>::as_ref": [0],
+    "core::result::Result::<T, E>::unwrap": [0], "core::result::Result::<T, E>::expect": [0], "core::option::Option::<T>::expect": [0],
     "std::path::Path::to_path_buf": [0], "std::path::PathBuf::into_os_string": [0], "std::path::Path::as_os_str": [0],
     "std::path::Path::new": [0], "std::path::PathBuf::as_path": [0],
     "std::ffi::os_str::OsStr::to_os_string": [0], "std::ffi::os_str::OsString::as_os_str": [0],
